@@ -15,6 +15,8 @@ import (
 type emPair struct {
 	em *asm.Emitter
 	m  *asmcat.Model
+	// lenBias is added to em.Len() when em is a clone that holds only the bytes emitted since Clone
+	lenBias int
 }
 
 func needOf(ops []asmcat.Op) int {
@@ -94,8 +96,8 @@ func (p *emPair) step(i int, o asmcat.Op) error {
 	if p.em.PC() != p.m.Addr {
 		return fmt.Errorf("after op %d %v: PC() = $%06x, want $%06x", i, o, p.em.PC(), p.m.Addr)
 	}
-	if p.em.Len() != p.m.Len() {
-		return fmt.Errorf("after op %d %v: Len() = %d, want %d", i, o, p.em.Len(), p.m.Len())
+	if !p.m.NilTarget && p.em.Len()+p.lenBias != p.m.Len() || p.m.NilTarget && p.em.Len() != 0 {
+		return fmt.Errorf("after op %d %v: Len() = %d, want %d", i, o, p.em.Len()+p.lenBias, p.m.Len())
 	}
 	if byte(p.em.Flags()) != p.m.Flags {
 		return fmt.Errorf("after op %d %v: tracked flags %02x, want %02x", i, o, byte(p.em.Flags()), p.m.Flags)
@@ -104,7 +106,7 @@ func (p *emPair) step(i int, o asmcat.Op) error {
 		got := p.em.Bytes()
 		// only the tail is compared here (cheap); whole-image comparisons happen at the checkpoints of each property
 		n := o.Need()
-		if len(got) != len(p.m.Bytes) || !bytes.Equal(got[len(got)-n:], p.m.Bytes[len(p.m.Bytes)-n:]) {
+		if len(got)+p.lenBias != len(p.m.Bytes) || !bytes.Equal(got[len(got)-n:], p.m.Bytes[len(p.m.Bytes)-n:]) {
 			return fmt.Errorf("after op %d %v: emitted bytes [% x], want [% x]", i, o, got[max0(len(got)-n):], p.m.Bytes[len(p.m.Bytes)-n:])
 		}
 	}
